@@ -65,8 +65,13 @@ def chk_point(sec_hex, k):
     n = 0
     for testnet in (False, True):
         nodes = [("pub", PubKeyNode(key=secp.sec(pt), chain_code=b"\x11" * 32, testnet=testnet))]
+        # the same key as the root of a wallet imported from an extended key (parsed nodes keep the 33-byte key field)
+        rn = hd.node_from_pub(pt, b"\x11" * 32, 2, 7, b"\x01\x02\x03\x04")
+        nodes.append(("pub-parsed", BaseWallet.from_extended_key(hd.xpub(rn, hd.version_for("pub", testnet, 44))).master))
         if k is not None:
             nodes.append(("prv", PrvKeyNode(key=k.to_bytes(32, "big"), chain_code=b"\x11" * 32, testnet=testnet)))
+            rp = hd.node_from_priv(k, b"\x11" * 32, 2, 7, b"\x01\x02\x03\x04")
+            nodes.append(("prv-parsed", BaseWallet.from_extended_key(hd.xprv(rp, hd.version_for("prv", testnet, 84))).master))
         for nk, node in nodes:
             w = BaseWallet(master=node, testnet=testnet)
             for kind in KINDS:
